@@ -17,7 +17,7 @@ EXPLANATION = (
 ASSUMPTIONS = ["pika::memory::intrusive_ptr copy/move/assign only affect the token reference count (intrusive_ptr_add_ref/release)",
                "std::atomic operations are the only accesses to state_"]
 THOROUGH_CONFIGS = [["-UNDEBUG", "-DPIKA_DEBUG"]]
-FLOORS = {"C14.R1": 6, "C14.R2": 6, "C14.R3": 5, "C14.R4": 8, "C14.R5": 6, "C14.R6": 4, "C14.R7": 8, "C14.R8": 3}
+FLOORS = {"C14.R9": 12, "C14.R1": 6, "C14.R2": 6, "C14.R3": 5, "C14.R4": 8, "C14.R5": 6, "C14.R6": 4, "C14.R7": 8, "C14.R8": 3}
 
 SS = "pika::detail::stop_state"
 TRY_GUARDS = ("pika::detail::scoped_lock_if_not_stopped", "pika::detail::scoped_lock_and_request_stop")
@@ -41,6 +41,11 @@ def run(rep, tier):
     rep.rule("C14.R1", "K8: token_ref_mask, stop_requested_flag, source_ref_mask, locked_flag are disjoint, cover 64 bits; increments are the masks' lowest bits")
     rep.rule("C14.R8", "K4/K8 (generation agreement): in every compare-exchange on the packed word state_ the desired word is computed from the same generation of the word as the "
              "expected one - after a failed attempt or a reload both are recomputed before the next attempt (a stale desired word rolls back other threads' updates of the counts / the stop bit)")
+    rep.rule("C14.R9", "K4/K7: (freshness) every turn of a retry / spin loop in lock, lock_and_request_stop, lock_if_not_stopped that tests a local copy of the "
+             "state word refreshes that copy from the value the failed compare-exchange observed or from a new load; (results) a successful compare-exchange "
+             "is reported as true (the caller's guard unlocks only then), a seen stop request makes lock_if_not_stopped run the callback, publish "
+             "finished=true and return false; add_callback links the callback exactly on the paths that return true; remove_callback writes through "
+             "is_removed_ only when it is set")
     rep.rule("C14.R2", "K4: every CAS on state_ in lock_and_request_stop/lock_if_not_stopped sees !stop_requested(word) established since the word's last (re)load; flags ORed as required; true only after CAS success")
     rep.rule("C14.R3", "K1: callbacks_ accessed and list helpers called only with the stop_state lock held")
     rep.rule("C14.R4", "K2/K6: callbacks run unlocked after being unlinked; finished flag published with release; execute() only from the three known sites; remove_callback waits unless on the signalling thread")
@@ -359,6 +364,9 @@ def run(rep, tier):
             else:
                 rep.bad("C14.R4", rc, loc_of(ev), "unlink-then-wait", "after unlinking a not-yet-run callback the destructor must return at once")
 
+    # ---- R9: loops poll fresh words, results agree with what was done
+    r9_rules(rep, F, get)
+
     # ---- R5 special members of stop_source
     srec = F.record("pika::stop_source")
     if not srec:
@@ -490,3 +498,164 @@ def run(rep, tier):
                             "reference-count change, stop request or lock acquisition of another thread is overwritten" % (f.qname, cs))
     if nmod < 8:
         raise AnalysisBroken("C14.R7: only %d modifications of stop_state::state_ found (files spelling it: %d)" % (nmod, len(cpps) + len(hdrs)))
+
+
+def r9_rules(rep, F, get):
+    from engine.kinds import sccs, guarded_returns, precedes_on_all_paths as ppa
+    from engine.core import subexprs
+    SSq = "pika::detail::stop_state"
+
+    def state_words(fn):
+        """locals holding a copy of the packed word: arguments of stop_requested/is_locked/stop_possible"""
+        vs = set()
+        for _, _, e in fn.all_events():
+            if e.get("k") == "call" and callee_short(e) in ("stop_requested", "is_locked", "stop_possible") and e.get("args"):
+                a0 = strip(e["args"][0])
+                if a0.get("k") == "var":
+                    vs.add(a0.get("name"))
+        return vs
+
+    for name in ("lock", "lock_and_request_stop", "lock_if_not_stopped"):
+        fn = get(SSq + "::" + name)
+        words = state_words(fn)
+        cas = [(b, i, e) for b, i, e in fn.all_events() if e.get("k") == "call" and callee_short(e).startswith("compare_exchange") and P(e.get("recv")) == "this->state_"]
+        if not cas:
+            raise AnalysisBroken("%s: compare-exchange on state_ not found" % fn.qname)
+        exp_vars = set(strip(e["args"][0]).get("name") for _, _, e in cas if strip(e["args"][0]).get("k") == "var")
+        for _, _, e in cas:
+            for x in subexprs(e["args"][1], lambda y: isinstance(y, dict) and y.get("k") == "var"):
+                if x.get("name") not in exp_vars and not x.get("param") and re.match(r"^\w+$", str(x.get("name", ""))):
+                    words.add(x.get("name"))
+        words -= exp_vars
+        if not words:
+            raise AnalysisBroken("%s: local copy of the state word not identified" % fn.qname)
+
+        def fresh_write(e, w):
+            if not (e.get("k") == "write" and P(e["lhs"]) == w and e.get("op") == "="):
+                return False
+            r = strip(e["rhs"])
+            if r.get("k") == "var" and r.get("name") in exp_vars:
+                return True
+            return any(callee_short(c) == "load" and P(c.get("recv")) == "this->state_" for c in subexprs(e["rhs"], lambda y: isinstance(y, dict) and y.get("k") == "call"))
+        for comp in sccs(fn):
+            if len(comp) == 1 and not any(t in comp for _, t in fn.succs(next(iter(comp)))):
+                continue
+            for w in sorted(words):
+                readers = [b for b in comp if fn.blocks[b].cond is not None and re.search(r"(^|[^\w.>])%s($|[^\w])" % re.escape(w), cond_atoms(fn.blocks[b].cond)[0])]
+                # the compare-exchange itself reads the word too (its desired value)
+                readers += [b for b, i, e in cas if b in comp and any(x.get("name") == w for x in subexprs(e["args"][1], lambda y: isinstance(y, dict) and y.get("k") == "var"))]
+                if not readers:
+                    continue
+                fresh_blocks = set(b for b in comp if any(fresh_write(e, w) for e in fn.blocks[b].events))
+                rest = set(comp) - fresh_blocks
+                stale = None
+                for r0 in sorted(set(readers)):
+                    if r0 not in rest:
+                        continue      # refreshed in the reader's own block (before or after the test: either way once per turn)
+                    # a cycle through r0 inside rest?
+                    seen, stack = set(), [t for _, t in fn.succs(r0) if t in rest]
+                    while stack:
+                        v = stack.pop()
+                        if v == r0:
+                            stale = r0
+                            break
+                        if v in seen:
+                            continue
+                        seen.add(v)
+                        stack += [t for _, t in fn.succs(v) if t in rest]
+                    if stale is not None:
+                        break
+                if stale is None:
+                    rep.ok("C14.R9", fn, "every turn of the loop over blocks %s refreshes '%s' (failed exchange's observation or a new load)" % (sorted(comp)[:6], w))
+                else:
+                    blk = fn.blocks[stale]
+                    rep.bad("C14.R9", fn, blk.events[-1].get("loc", fn.loc) if blk.events else fn.loc, "stale-word:%s:%s" % (name, w),
+                            "%s can go round its retry/spin loop testing '%s' without refreshing it from state_ (neither the word the failed compare-exchange "
+                            "observed nor a new load): once another thread changes the word the loop never terminates or acts on an outdated stop/lock bit" % (fn.qname, w))
+    # results of the two locking functions
+    for name in ("lock_and_request_stop", "lock_if_not_stopped"):
+        fn = get(SSq + "::" + name)
+        ff = FactFlow(fn)
+        n = 0
+        for leaf, fb, ev in guarded_returns(fn, ff):
+            v = strip(leaf)
+            if v.get("k") != "lit":
+                continue
+            won = any(t and ".compare_exchange" in a and a.startswith("this->state_") for a, t in fb)
+            n += 1
+            if v.get("v") is False and won:
+                rep.bad("C14.R9", fn, loc_of(ev), "false-after-cas:" + name, "%s returns false after its compare-exchange succeeded: the lock bit%s is set but the caller's "
+                        "guard only unlocks on true - every later operation on the stop state spins for ever%s" %
+                        (fn.qname, " and the stop bit" if name == "lock_and_request_stop" else "", "; no request_stop() ever returns true" if name == "lock_and_request_stop" else ""))
+            elif v.get("v") is True and not won:
+                rep.bad("C14.R9", fn, loc_of(ev), "true-without-cas:" + name, "%s returns true without a successful compare-exchange" % fn.qname)
+            else:
+                rep.ok("C14.R9", fn, "return %s at %s agrees with the outcome of the compare-exchange" % (v.get("v"), loc_of(ev)))
+        if n < 2:
+            raise AnalysisBroken("%s: literal returns not found" % fn.qname)
+    # lock_if_not_stopped: stop seen => callback run, finished published (true, release), false returned
+    li = get(SSq + "::lock_if_not_stopped")
+    ff = FactFlow(li)
+    is_exec = lambda e: e.get("k") == "call" and callee_short(e) == "execute"
+    is_fin = lambda e: e.get("k") == "call" and callee_short(e) == "store" and P(e.get("recv")).endswith("callback_finished_executing_")
+    nn = 0
+    for b, i, ev in li.all_events():
+        if ev.get("k") != "return":
+            continue
+        fb = ff.before.get((b, i))
+        if fb is None:
+            continue
+        if any(t and a.startswith("stop_requested(") for a, t in fb):
+            nn += 1
+            ex_ok = ppa(li, is_exec, (b, i))
+            fins = [e for _, _, e in li.all_events() if is_fin(e)]
+            fin_ok = ppa(li, is_fin, (b, i)) and all(T(strip(e["args"][0])) == "true" for e in fins)
+            if ex_ok and fin_ok:
+                rep.ok("C14.R9", li, "stop already requested at %s: the callback was run and finished=true published before returning" % loc_of(ev))
+            else:
+                rep.bad("C14.R9", li, loc_of(ev), "stopped-without-run", "lock_if_not_stopped returns at %s with stop already requested, but %s: a stop_callback registered after "
+                        "request_stop() never runs / its destructor waits for a finished flag that is never true" %
+                        (loc_of(ev), "the callback was not executed on every path" if not ex_ok else "callback_finished_executing_ is not set to true on every path"))
+    if nn < 1:
+        raise AnalysisBroken("lock_if_not_stopped: no return under stop_requested found")
+    # add_callback: linked <=> true
+    ac = get(SSq + "::add_callback")
+    is_link = lambda e: e.get("k") == "call" and callee_short(e) == "add_this_callback"
+    link = [(b, i) for b, i, e in ac.all_events() if is_link(e)]
+    may, _, _ = forward(ac, frozenset(), lambda st, ev, pos: st | {"l"} if pos in link else st, None, lambda a, b: a | b)
+    must, _, _ = forward(ac, frozenset(), lambda st, ev, pos: st | {"l"} if pos in link else st, None, lambda a, b: a & b)
+    ffa = FactFlow(ac)
+    for b, i, ev in ac.all_events():
+        if ev.get("k") != "return" or (b, i) not in may:
+            continue
+        v = strip(ev.get("e"))
+        if v.get("k") != "lit":
+            raise AnalysisBroken("stop_state::add_callback returns a non-literal")
+        if v.get("v") is True and "l" not in must[(b, i)]:
+            rep.bad("C14.R9", ac, loc_of(ev), "true-without-link", "add_callback reports the callback as registered on a path that did not link it into callbacks_ "
+                    "(it will never be run by request_stop, and its destructor unlinks a node that is in no list)")
+        elif v.get("v") is False and "l" in may[(b, i)]:
+            rep.bad("C14.R9", ac, loc_of(ev), "false-after-link", "add_callback links the callback and then reports failure: the owner does not deregister it, request_stop "
+                    "later runs a destroyed callback")
+        else:
+            rep.ok("C14.R9", ac, "return %s at %s agrees with the linking of the callback" % (v.get("v"), loc_of(ev)))
+    for b, i in link:
+        fb = ffa.before.get((b, i)) or frozenset()
+        if not any(t and re.match(r"^\w+(\.operator bool\(\))?$", a) for a, t in fb):
+            rep.bad("C14.R9", ac, loc_of(ac.blocks[b].events[i]), "link-without-lock", "callbacks_ is modified although lock_if_not_stopped did not report the lock as taken")
+    # remove_callback: the write through is_removed_
+    rc = get(SSq + "::remove_callback")
+    ffr = FactFlow(rc)
+    ws = [(b, i, e) for b, i, e in rc.all_events() if e.get("k") == "write" and "is_removed_" in P(e["lhs"]) and P(e["lhs"]).startswith("*")]
+    if not ws:
+        rep.bad("C14.R9", rc, rc.loc, "self-removal-not-flagged", "remove_callback no longer tells request_stop (through *is_removed_) that a callback deregistered itself "
+                "from inside its own invocation: request_stop touches the destroyed callback afterwards")
+    for b, i, e in ws:
+        fb = ffr.before.get((b, i)) or frozenset()
+        nonnull = any("is_removed_" in a and "nullptr" in a and ((("==" in a) and t is False) or (("!=" in a) and t is True)) for a, t in fb)
+        val = T(strip(e["rhs"])) == "true"
+        if nonnull and val:
+            rep.ok("C14.R9", rc, "*is_removed_ = true only after is_removed_ != nullptr was seen")
+        else:
+            rep.bad("C14.R9", rc, loc_of(e), "removed-flag-write", "remove_callback writes %s through is_removed_ %s" % (T(strip(e["rhs"])), "without having seen it non-null "
+                    "(null dereference when the callback is not executing / flag not set when it is)" if not nonnull else "(must be true)"))
